@@ -63,7 +63,30 @@ EP = Endpoint(ipaddress.ip_address("192.0.2.1"), 161)
 REPLY_SIZE = [None]
 
 
+REPLY_OVERRIDE = [None]
+_MSG = bytes.fromhex("302902010104067075626c6963a21c02046553f100020100020100300e300c06082b060102010101000500")
+# replies whose CONTENT looks like (damaged, padded, oddly encoded) SNMP: the transport
+# hands over whatever arrived, judging it is not its business
+BERLIKE = (
+    _MSG,
+    _MSG + b"\x00",
+    _MSG + b"\x00\x00\x00\x00padding",
+    _MSG[:-1],
+    _MSG[:10],
+    b"\x30",
+    b"\x30\x00",
+    b"\x30\x81\x29" + _MSG[2:],
+    b"\x30\x84\x00\x00\x00\x29" + _MSG[2:],
+    b"\x30\x80" + _MSG[2:] + b"\x00\x00",
+    b"\x30\x7f" + _MSG[2:],
+    b"\x30\x05" + _MSG[2:],
+    _MSG + _MSG,
+)
+
+
 def reply_bytes(i):
+    if REPLY_OVERRIDE[0] is not None:
+        return REPLY_OVERRIDE[0]
     if REPLY_SIZE[0] is not None:
         n = REPLY_SIZE[0]
         return (b"\x00 size-%d-%d " % (n, i) + bytes(range(256)) * (n // 256 + 1))[:n]
@@ -91,6 +114,8 @@ def make_script_factory(seq, timeout):
                 loop.call_later(timeout * 0.3, transport.icmp, ConnectionRefusedError(111, "Connection refused"))
             elif outcome == "lost":
                 loop.call_later(timeout * 0.3, transport.fatal, OSError(5, "socket went away"))
+            elif outcome == "closed":
+                loop.call_later(timeout * 0.3, transport.closed_externally)
 
         return script
 
@@ -342,6 +367,36 @@ def virtual_part(R):
                 judge_virtual(R, case, seq, len(seq), 1, res, t0, log, transports)
             finally:
                 REPLY_SIZE[0] = None
+    # the transport of an attempt goes away without an error while the reply is awaited:
+    # an unanswered attempt like any other (retried or reported, never a CancelledError)
+    for retries in (1, 2, 3):
+        for seq in itertools.product(("closed", "none", "reply"), repeat=retries):
+            if "closed" not in seq:
+                continue
+            k += 1
+            if not R.mine(k):
+                continue
+            case = {"part": "virtual", "seq": list(seq), "retries": retries, "timeout": 1}
+            res, t0, log, transports, hygiene = run_virtual(seq, retries, 1)
+            R.case(("c13a", retries, 1, seq), True)
+            R.mon["virtual_sequences_run"] += 1
+            R.mon["closed_without_error_run"] += 1
+            judge_virtual(R, case, seq, retries, 1, res, t0, log, transports)
+    for j, content in enumerate(BERLIKE):
+        for seq in (("reply",), ("none", "reply"), ("two",)):
+            k += 1
+            if not R.mine(k):
+                continue
+            case = {"part": "virtual", "seq": list(seq), "retries": len(seq), "timeout": 1, "berlike": j}
+            REPLY_OVERRIDE[0] = content
+            try:
+                res, t0, log, transports, hygiene = run_virtual(seq, len(seq), 1)
+                R.case(("c13a-berlike", j, seq), True)
+                R.mon["virtual_sequences_run"] += 1
+                R.mon["ber_like_replies_run"] += 1
+                judge_virtual(R, case, seq, len(seq), 1, res, t0, log, transports)
+            finally:
+                REPLY_OVERRIDE[0] = None
     # history: N calls whose socket cannot even be created (OS error), then a normal
     # exchange in the same process / on the same loop must still work
     for n_fail in (1, 5, 63, 64, 70, 130):
@@ -555,6 +610,7 @@ def replay(R, v):
         seq = tuple(c["seq"])
         REPLY_SIZE[0] = c.get("reply_size")
         CALL_STYLE[0] = c.get("style", "kw")
+        REPLY_OVERRIDE[0] = BERLIKE[c["berlike"]] if c.get("berlike") is not None else None
         try:
             res, t0, log, transports, hygiene = run_virtual(seq, c["retries"], c["timeout"], cancel_at=c.get("cancel_at"))
         finally:
